@@ -293,9 +293,20 @@ static void *dequeue(thread_pool_t *interface)
 			if (out != NULL)
 				break;
 
+			/*
+			 * After a worker failed, the remaining workers shut
+			 * down and queued items are never completed. Don't
+			 * wait for them, the caller has to check the status.
+			 */
+			if (pool->status != 0)
+				break;
+
 			pthread_cond_wait(&pool->done_cond, &pool->mtx);
 		}
 		pthread_mutex_unlock(&pool->mtx);
+
+		if (out == NULL)
+			return NULL;
 	}
 
 	ptr = out->data;
